@@ -476,6 +476,17 @@ theorem proc_start_join_rules (s : Proc) (m : Nat) :
   obtain ⟨r, o, e, i⟩ := s
   cases r <;> simp [Proc.step]
 
+/-- failure returns: `start` while vfork fails changes nothing (the object stays idle); `join` while `waitpid` fails (EINTR)
+    returns false, has closed the stdin end, keeps pid and read ends -- the object is still joinable and the next successful
+    `join` (or `kill`) leaves no descriptor behind -/
+theorem proc_failed_calls_keep_the_object_consistent (s : Proc) :
+    s.step .startFailed = (s, false) ∧
+    (s.running = true → s.step .joinFailed = ({ s with inp := false }, false) ∧
+        (s.step .joinFailed).1.step .join = (Proc.init, true) ∧ (s.step .joinFailed).1.step .kill = (Proc.init, true)) ∧
+    (s.running = false → s.step .joinFailed = (s, false)) := by
+  obtain ⟨r, o, e, i⟩ := s
+  cases r <;> simp [Proc.step]
+
 example : (Proc.init.run [.openp 5, .close 4, .isRunning]) = ⟨true, true, false, false⟩ := by decide
 
 end Nstd.Args
